@@ -2322,7 +2322,7 @@ func (c *stallConn) Close() error { c.once.Do(func() { close(c.closedCh) }); ret
 // closeLivenessScenarios: Close returns (and then everything else does) although a writer is stuck in the
 // connection's Write, and although the library's own ticker collector would not tick for an hour
 func closeLivenessScenarios(o *out, r *rng) {
-	for i := 0; i < 6; i++ {
+	for i := 0; i < 18; i++ {
 		conn := &stallConn{closedCh: make(chan struct{}), inWrite: make(chan struct{}, 1)}
 		c, err := stun.NewClient(conn, stun.WithRTO(time.Hour))
 		if err != nil {
@@ -2597,20 +2597,35 @@ func moreCloseShapes(o *out, r *rng) {
 		if err == nil {
 			var mu sync.Mutex
 			seen := map[int][]int{}
-			for k := 0; k < 40; k++ {
-				k := k
-				_ = c.Start(&stun.Message{TransactionID: clientTID(9700 + k), Raw: stunMsg(r, 9700+k, 20)}, func(e stun.Event) {
-					mu.Lock()
-					seen[k] = append(seen[k], agentIDOf(e.TransactionID))
-					mu.Unlock()
-				})
+			// started from many goroutines (a pooled object that was put back twice sits in the pool of whichever P
+			// did it: some of these goroutines run there)
+			raws := make([][]byte, 640)
+			for k := range raws {
+				raws[k] = stunMsg(r, 9700+k, 20)
 			}
+			var swg sync.WaitGroup
+			for g := 0; g < 64; g++ {
+				swg.Add(1)
+				go func(g int) {
+					defer swg.Done()
+					for j := 0; j < 10; j++ {
+						k := g*10 + j
+						_ = c.Start(&stun.Message{TransactionID: clientTID(9700 + k), Raw: raws[k]}, func(e stun.Event) {
+							mu.Lock()
+							seen[k] = append(seen[k], agentIDOf(e.TransactionID))
+							mu.Unlock()
+						})
+						runtime.Gosched()
+					}
+				}(g)
+			}
+			swg.Wait()
 			_ = c.Close()
 			mu.Lock()
-			for k := 0; k < 40; k++ {
+			for k := 0; k < 640; k++ {
 				if len(seen[k]) != 1 || seen[k][0] != 9700+k {
-					o.failFor("C15", "handler-not-invoked-exactly-once", fmt.Sprintf("x after Close calls that overlapped stalled writers, a fresh client with 40 transactions: handler %d saw events for %v", k, seen[k]))
-					o.failFor("C10", "handler-not-invoked-exactly-once", fmt.Sprintf("x after Close calls that overlapped stalled writers, a fresh client with 40 transactions: handler %d saw events for %v", k, seen[k]))
+					o.failFor("C15", "handler-not-invoked-exactly-once", fmt.Sprintf("x after Close calls that overlapped stalled writers, a fresh client with 640 transactions started from 64 goroutines: handler %d saw events for %v", k, seen[k]))
+					o.failFor("C10", "handler-not-invoked-exactly-once", fmt.Sprintf("x after Close calls that overlapped stalled writers, a fresh client with 640 transactions started from 64 goroutines: handler %d saw events for %v", k, seen[k]))
 					break
 				}
 			}
